@@ -262,3 +262,41 @@ Definition predict (forbid_dtd : bool) (content : pystr) (rk : rootkind) : verdi
        | RootValid => VHandled
        | _ => VRejected BAD_REQUEST
        end.
+
+(* ---- the function evaluated by the correspondence check (checks/C19.py) ----
+   [spec_parse]: the behaviour of expat + defusedxml ON THE ATTACK GRAMMAR as the property needs it (refuse
+   what must be refused, ParseError for a root element the generator made malformed, a tree otherwise);
+   it is compared with the real parser on every run -- it is not used by any theorem. *)
+Definition spec_parse (fd : bool) (rk : rootkind) (content : pystr) : parsed unit :=
+  match predict fd content rk with
+  | VHandled => PTree tt
+  | VRejected BAD_REQUEST => PParseError
+  | VRejected _ => PForbidden FEntities
+  end.
+
+(* results of bytes.decode(charset) as observed by the harness: 0 = the intended text, 1 = UnicodeDecodeError,
+   3 = some other text, anything else / unknown charset = LookupError *)
+Definition dec_of (content : pystr) (results : list (pystr * N)) (c : pystr) : dec :=
+  match find (fun x => eqs (fst x) c) results with
+  | Some (_, 0) => DecOk content
+  | Some (_, 1) => DecUnicodeError
+  | Some (_, 3) => DecOk [63]              (* decodes, but to another text: must not be the one consulted *)
+  | _ => DecLookupError
+  end.
+
+Definition handled_marker : resp := mkResp 0 [] [].
+
+Definition corr_case (fd : bool) (x : method * attack * rootkind * option pystr * list (pystr * N))
+  : bool * (N * N) * N * pystr :=
+  let '(m, a, rk, ct, results) := x in
+  let content := render a in
+  let rd := read_xml unit (spec_parse fd rk) (RawOk []) (fun _ => dec_of content results)
+                     (charsets ct (str "utf-8")) in
+  match serve unit unit m None rd (fun _ s => (s, handled_marker)) tt with
+  | (_, Some r) => (wf_attack a, fingerprint content, r_status r, r_body r)
+  | (_, None) => (wf_attack a, fingerprint content, 999, [])
+  end.
+
+Definition corr_eqb (a b : bool * (N * N) * N * pystr) : bool :=
+  let '(w1, (l1, h1), s1, t1) := a in let '(w2, (l2, h2), s2, t2) := b in
+  Bool.eqb w1 w2 && (l1 =? l2) && (h1 =? h2) && (s1 =? s2) && eqs t1 t2.
